@@ -342,7 +342,14 @@ pub fn is_open(fd: RawFd) -> bool {
 
 /// eventfd counter, read non-destructively.
 pub fn eventfd_count(fd: RawFd) -> Option<u64> {
-    fdinfo_field(fd, "eventfd-count")
+    // the kernel prints the counter in hexadecimal ("eventfd-count: %16llx")
+    let s = std::fs::read_to_string(format!("/proc/self/fdinfo/{fd}")).ok()?;
+    for l in s.lines() {
+        if let Some(rest) = l.strip_prefix("eventfd-count:") {
+            return u64::from_str_radix(rest.trim(), 16).ok();
+        }
+    }
+    None
 }
 
 /// Sorted census of /proc/self/fd: fd -> (identity, link text).
